@@ -22,6 +22,7 @@ package main
 //	identifiers compared with nil are nil-able without being listed in optVars
 //
 //	% on ints (Int.tmod); writes through maps shared with the caller (target option sharedMaps)
+//	the bit test `a&b != 0` / `a&b == 0` (GoLite.hasBits, class GoLite.HasBits of the operand type)
 //	x[:hi], x[lo:], x[lo:hi] (GoLite.sliceTo / sliceFrom); an out argument (outArgs) that is a captured pointer
 //	variable instead of `&x`; `.., err := f(..)` + `return .., err`: err is nil-able without being listed
 //
@@ -313,9 +314,37 @@ func (g *g2l) atom(e ast.Expr) string {
 	return s
 }
 
+// g2lBitTest recognises `a&b != 0` / `a&b == 0` (operands in either order): the two operands of `&`.
+func g2lBitTest(x *ast.BinaryExpr) (ast.Expr, ast.Expr, bool) {
+	isZero := func(e ast.Expr) bool {
+		bl, ok := e.(*ast.BasicLit)
+		return ok && bl.Kind == token.INT && bl.Value == "0"
+	}
+	and, zero := x.X, x.Y
+	if isZero(and) {
+		and, zero = zero, and
+	}
+	if p, ok := and.(*ast.ParenExpr); ok {
+		and = p.X
+	}
+	be, ok := and.(*ast.BinaryExpr)
+	if !ok || be.Op != token.AND || !isZero(zero) {
+		return nil, nil, false
+	}
+	return be.X, be.Y, true
+}
+
 func (g *g2l) binary(x *ast.BinaryExpr) string {
 	switch x.Op {
 	case token.EQL, token.NEQ:
+		// the bit test a&b != 0 / a&b == 0
+		if a, b, ok := g2lBitTest(x); ok {
+			t := "(GoLite.hasBits " + g.atom(a) + " " + g.atom(b) + ")"
+			if x.Op == token.EQL {
+				return "(!" + t + ")"
+			}
+			return t
+		}
 		// comparisons with nil
 		if isNil(x.Y) || isNil(x.X) {
 			o := x.X
